@@ -84,9 +84,12 @@ check_clock_gate(struct trace *trace)
 			t0 = sclock;
 		}
 
-		int64_t delta = llabs(t0 - sclock);
-		if (delta > maxgate) {
-			double hdelta = ((double) delta) / (3600.0 * 1e9);
+		/* Compute the distance without overflowing */
+		uint64_t udelta = t0 > sclock
+			? (uint64_t) t0 - (uint64_t) sclock
+			: (uint64_t) sclock - (uint64_t) t0;
+		if (udelta > (uint64_t) maxgate) {
+			double hdelta = ((double) udelta) / (3600.0 * 1e9);
 			err("stream %s has starting clock too far: delta=%.2f h",
 					stream->relpath, hdelta);
 			ret = -1;
@@ -171,7 +174,10 @@ update_clocks(struct player *player, struct stream *stream)
 	}
 
 	player->lastclock = sclock;
-	player->deltaclock = player->lastclock - player->firstclock;
+	/* Unsorted or corrupted streams can hold clocks arbitrarily far apart,
+	 * avoid the signed overflow */
+	player->deltaclock = (int64_t) ((uint64_t) player->lastclock
+			- (uint64_t) player->firstclock);
 
 	return 0;
 }
